@@ -87,6 +87,22 @@ func (s *Stats) LabelN(l string, n int) { s.mu.Lock(); s.Labels[l] += n; s.mu.Un
 // SubEval counts oracle comparisons inside one case.
 func (s *Stats) SubEval(n int) { s.mu.Lock(); s.Sub += n; s.mu.Unlock() }
 
+// KnownHit records, without ending the case, an observation that matches an open known
+// finding; it returns false (and records nothing) when (property, sig) is not listed, in which
+// case the caller must report the failure.
+func (s *Stats) KnownHit(sig, msg string) bool {
+	if !IsKnown(Prop(s.ID), sig) {
+		return false
+	}
+	s.mu.Lock()
+	s.Known[sig]++
+	if old, ok := s.KnownEx[sig]; !ok || len(msg) < len(old) {
+		s.KnownEx[sig] = msg
+	}
+	s.mu.Unlock()
+	return true
+}
+
 // Exclude counts inputs that were excluded by construction because of a known finding.
 func (s *Stats) Exclude(what string) { s.mu.Lock(); s.Excluded[what]++; s.mu.Unlock() }
 
@@ -256,6 +272,12 @@ func Run[C any](t *testing.T, id string, draw func(*rapid.T) C, run func(C, *Sta
 	})
 }
 
+var probes = map[string]func(*Stats) *Failure{}
+
+// RegisterProbe registers a hand-written deterministic reproduction (used by saved cases of
+// the form {"test": id, "probe": name}); unlike recipes they survive generator changes.
+func RegisterProbe(id, name string, fn func(*Stats) *Failure) { probes[id+"/"+name] = fn }
+
 // ReplayResult is the outcome of replaying one saved case.
 type ReplayResult struct {
 	File   string `json:"file"`
@@ -274,14 +296,38 @@ func replayOne[C any](t *testing.T, id, file string, st *Stats, run func(C, *Sta
 		return
 	}
 	var doc struct {
-		Test string          `json:"test"`
-		Case json.RawMessage `json:"case"`
+		Test  string          `json:"test"`
+		Probe string          `json:"probe"`
+		Case  json.RawMessage `json:"case"`
 	}
 	if err := json.Unmarshal(b, &doc); err != nil {
 		t.Errorf("replay %s: %v", file, err)
 		return
 	}
 	if doc.Test != id {
+		return
+	}
+	if doc.Probe != "" {
+		// a deterministic, generator-independent reproduction registered by the harness
+		fn, ok := probes[id+"/"+doc.Probe]
+		if !ok {
+			t.Errorf("replay %s: unknown probe %q", file, doc.Probe)
+			return
+		}
+		res.Ran = true
+		f := func() (f *Failure) {
+			defer func() {
+				if r := recover(); r != nil {
+					f = &Failure{Sig: "panic", Msg: fmt.Sprintf("panic: %v\n%s", r, debug.Stack())}
+				}
+			}()
+			return fn(st)
+		}()
+		st.finishCase(b)
+		if f != nil {
+			res.Failed, res.Sig, res.Msg = true, f.Sig, f.Msg
+			t.Logf("VERIF-REPLAY-FAIL %s file=%s sig=%q: %s", id, file, f.Sig, f.Msg)
+		}
 		return
 	}
 	var c C
